@@ -24,14 +24,41 @@ def takeArr {α} (f : String → Option α) (toks : Array String) :
 
 def natAt (toks : Array String) (i : Nat) : Option Nat := (toks[i]?).bind parseNat?
 
-/-- Same rule as the harness (`exact_weights`): non-negative integer-valued weights whose
-sum stays below 2^53 – every summation order gives the same `f64` sums, so the
-refinement of `weighted_quantiles` is reproducible and the model runs its own. -/
+/-- Odd mantissa and exponent of a non-negative finite `f64` given by its bits
+(`w = m * 2^e`, `e` counted from `-1074`: the returned exponent is `e + 1074 ≥ 0`);
+`none` for negative, infinite, NaN; `-0.0` counts as `0`. -/
+def dyadic (b : Nat) : Option (Nat × Nat) :=
+  if b = 0x8000000000000000 then some (0, 0)
+  else if b ≥ 2 ^ 63 then none
+  else
+    let ef := b / 2 ^ 52
+    let mant := b % 2 ^ 52
+    if ef = 0x7ff then none
+    else
+      let (m, e) := if ef = 0 then (mant, 0) else (mant + 2 ^ 52, ef - 1)
+      if m = 0 then some (0, 0)
+      else
+        -- strip trailing zero bits (at most 52)
+        let tz := (List.range 53).find? (fun k => (m / 2 ^ k) % 2 = 1) |>.getD 0
+        some (m / 2 ^ tz, e + tz)
+
+/-- Same rule as the harness (`exact_weights`): non-negative finite weights that are all
+multiples of one power of two `2^q`, with a total below `2^53 * 2^q`.  Every partial sum, in
+every order, is then a multiple of `2^q` below `2^53 * 2^q`, i.e. exactly representable:
+rayon's fold/reduce order cannot change `part_weights`, so the refinement of
+`weighted_quantiles` is reproducible and the model runs its own (integer weights with a
+sum below 2^53, power-of-two multiples of them and subnormal weights are instances). -/
 def exactWeights (bits : List Nat) : Bool :=
-  let ws := bits.map (fun b => Float.ofBits (UInt64.ofNat b))
-  let okEach := (bits.zip ws).all (fun (b, w) =>
-    w.isFinite && w ≥ 0.0 && w == w.floor && w < 9007199254740992.0 && b ≠ 0x8000000000000000)
-  okEach && (ws.map (fun w => w.toUInt64.toNat)).sum < 2 ^ 53
+  match bits.mapM dyadic with
+  | none => false
+  | some ds =>
+    let nz := ds.filter (·.1 ≠ 0)
+    let q := nz.foldl (fun acc d => min acc d.2) 5000
+    nz.all (fun d => d.2 - q ≤ 53) && (nz.map (fun d => d.1 * 2 ^ (d.2 - q))).sum < 2 ^ 53
+
+/-- The model computes with `+0.0` in place of `-0.0` (a legal non-negative weight): the
+result must not depend on the sign of a zero. -/
+def normZero (b : Nat) : Nat := if b = 0x8000000000000000 then 0 else b
 
 /-- The model re-runs the refinement whenever it is reproducible (same rule in the harness:
 `own_refinement`; no size gate: 70 001 points into 70 001 parts take 0.3 s). -/
@@ -67,12 +94,6 @@ def digitsOf (s : String) : Option (List Nat) :=
 def codeNum (base : Nat) (ds : List Nat) : Nat := ds.foldl (fun acc d => acc * base + d) 0
 
 def floatOfBits (b : Nat) : Float := Float.ofBits (UInt64.ofNat b)
-
-/-- A positive power of two `2^e`, `|e| ≤ 200` (bit pattern: zero mantissa): multiplying
-integer weights below 2^53 by it is exact and keeps every partial sum exact (same rule in
-the harness: `pow2_scale`). -/
-def pow2Scale (bits : Nat) : Bool :=
-  bits % 2 ^ 52 = 0 && 823 ≤ bits / 2 ^ 52 && bits / 2 ^ 52 ≤ 1223
 
 /-- `HilbertCurve::partition`: MAX_ORDER check, empty early return, then `partition_indexed`. -/
 def hilbertHead (dim order parts n : Nat) : Option String :=
@@ -136,7 +157,7 @@ def handle (toks : List String) : String :=
     | none => "bad-op"
     | some (parts, idxs, wbits) =>
       if idxs.isEmpty then "panic called `Option::unwrap()` on a `None` value"
-      else hilbertOut parts idxs (wbits.map floatOfBits) (exactWeights wbits)
+      else hilbertOut parts idxs (wbits.map (fun b => floatOfBits (normZero b))) (exactWeights wbits)
         (post.bind (fun p => parsePositions p 0))
   | some "wqs" =>
     -- `wqs <pool> <parts> <n> <scale> <idx…> <w…> [=> <m> <pos…>]`: `wq` with the weights multiplied
@@ -152,8 +173,9 @@ def handle (toks : List String) : String :=
     | none => "bad-op"
     | some (parts, scale, idxs, wbits) =>
       if idxs.isEmpty then "panic called `Option::unwrap()` on a `None` value"
-      else hilbertOut parts idxs (wbits.map (fun b => floatOfBits b * floatOfBits scale))
-        (exactWeights wbits && pow2Scale scale) (post.bind (fun p => parsePositions p 0))
+      else
+        let ws := wbits.map (fun b => floatOfBits (normZero b) * floatOfBits scale)
+        hilbertOut parts idxs ws (exactWeights (ws.map (·.toBits.toNat))) (post.bind (fun p => parsePositions p 0))
   | some "hils" =>
     -- `hils <dim> <pool> <order> <parts> <n> <scale> <coords…> <w…> [=> <idx…> <m> <pos…>]`
     match (do
@@ -177,8 +199,8 @@ def handle (toks : List String) : String :=
           match takeArr parseNat? post n 0 #[] with
           | none => "bad-op"
           | some (idxs, j) =>
-            hilbertOut parts idxs.toList (wbits.map (fun b => floatOfBits b * floatOfBits scale))
-              (exactWeights wbits && pow2Scale scale) (parsePositions post j)
+            let ws := wbits.map (fun b => floatOfBits (normZero b) * floatOfBits scale)
+            hilbertOut parts idxs.toList ws (exactWeights (ws.map (·.toBits.toNat))) (parsePositions post j)
   | some "hil" =>
     match (do
       let dim ← natAt pre 1
@@ -200,7 +222,7 @@ def handle (toks : List String) : String :=
           match takeArr parseNat? post n 0 #[] with
           | none => "bad-op"
           | some (idxs, j) =>
-            hilbertOut parts idxs.toList (wbits.map floatOfBits) (exactWeights wbits) (parsePositions post j)
+            hilbertOut parts idxs.toList (wbits.map (fun b => floatOfBits (normZero b))) (exactWeights wbits) (parsePositions post j)
   | some "hilg" =>
     -- `hilg <dim> <pool> <order> <parts> <n> <family> <layout> <wmode> <seed> <reuse>
     --      [=> <idx…> <w…(decimal integers)> <m> <pos…>]`: points and weights are generated by the
@@ -225,8 +247,8 @@ def handle (toks : List String) : String :=
             some (idxs, ws, j)) with
           | none => "bad-op"
           | some (idxs, ws, j) =>
-            let exact := ws.toList.all (· < 2 ^ 53) && ws.toList.sum < 2 ^ 53
-            hilbertOut parts idxs.toList (ws.toList.map Nat.toFloat) exact (parsePositions post j)
+            let wf := ws.toList.map Nat.toFloat
+            hilbertOut parts idxs.toList wf (exactWeights (wf.map (·.toBits.toNat))) (parsePositions post j)
   | some "zc" =>
     match (do
       let dim ← natAt pre 1
@@ -248,6 +270,10 @@ def handle (toks : List String) : String :=
       if pre.size = 10 ∧ (dim = 2 ∨ dim = 3) then some (dim, order, parts, n) else none) with
     | none => "bad-op"
     | some (dim, order, parts, n) => zcurveOut dim order parts n (post.getD #[])
+  | some "cx" =>
+    "skip context op: implementation-vs-implementation comparison (same calls on the global pool / inside a rayon task / concurrently / with other input types); the calls themselves are compared with the model on the hilg/zcg lines that follow"
+  | some "seq" =>
+    "skip sequence op: the listed ops run first-thing in a fresh child process and are compared with this process; each op is compared with the model on its own line"
   | _ => "bad-op"
 
 end Coupe.Driver.C09
